@@ -249,6 +249,13 @@ func (b *builder) buildRule(ev *Event, ruleID string, depth int) *ProofNode {
 				partial = true
 				continue
 			}
+			if !isGround(fact) && groundUpToWildcards(fact) {
+				// The body atom has wildcards, so the recorded premise is a
+				// pattern. Any stored fact matching it supports the rule firing.
+				if match, ok := firstMatch(b.store, fact); ok {
+					fact = match
+				}
+			}
 			sub := b.build(fact, depth+1)
 			if len(sub) == 0 {
 				partial = true
@@ -259,11 +266,11 @@ func (b *builder) buildRule(ev *Event, ruleID string, depth int) *ProofNode {
 			// Closed-world absence check.
 			// Apply the substitution we have (from the event) and check the store.
 			ground, err := applyToNeg(term, ev.Subst)
-			if err != nil || !isGround(ground) {
+			if err != nil || !groundUpToWildcards(ground) {
 				partial = true
 				continue
 			}
-			if b.store.Contains(ground) {
+			if storeHasMatch(b.store, ground) {
 				// Inconsistency: negation shouldn't have held if the fact is
 				// in the store. Treat as partial.
 				partial = true
@@ -368,6 +375,19 @@ func (b *builder) buildDo(ev *Event, ruleID string, depth int) *ProofNode {
 	}
 	node.ID = derivedProofID(ruleID, ev.Output, premiseProofs)
 	return node
+}
+
+// firstMatch returns a stored fact that matches the pattern.
+func firstMatch(store factstore.ReadOnlyFactStore, pattern ast.Atom) (ast.Atom, bool) {
+	var match ast.Atom
+	found := false
+	store.GetFacts(pattern, func(f ast.Atom) error {
+		if !found {
+			match, found = f, true
+		}
+		return nil
+	})
+	return match, found
 }
 
 // applyToNeg applies a substitution (the rule's solution) to a negated atom.
